@@ -22,11 +22,21 @@ META = {
         "`DataMember(Name = \"`, `EnumMember(Value = \"`, `<member> = ` of integer enums, `LSPRequest(\"` and the "
         "LSPMethods constants is the plain attribute .name / .value / .method of the property / enum item / "
         "message being emitted, with no intervening call. (4) the response typeof in LSPRequest and the request "
-        "typeof in LSPResponse derive from get_name of the same loop variable."),
-    "trusted_base": ["Python scoping: a for target keeps its last value after the loop"],
+        "typeof in LSPResponse derive from get_name of the same loop variable. (5) member fold: generate_property "
+        "and the constructor generator are evaluated (E5, the type-name helper stubbed) on a synthetic property for "
+        "each type kind x optional x null-admitting: the member is nullable iff optional or null-admitting, carries "
+        "NullValueHandling.Ignore iff optional and not null-admitting, its DataMember name is the wire name verbatim, "
+        "the JSON constructor assigns it and gives it a default iff it may be absent. (6) message fold: the bodies of "
+        "both message loops of generate_all_classes are evaluated for each of the 95 metamodel messages with the "
+        "class emitter stubbed: LSPRequest carries the exact method string and typeof(the response class emitted for "
+        "the same request), LSPResponse the request class, Direction the metamodel's direction of that method. "
+        "(7) the dotnet flattening (own / extends / mixins, nearest declaration wins) is folded on the synthetic "
+        "inheritance lattice of C06 and compared with the reference flattening."),
+    "trusted_base": ["Python scoping: a for target keeps its last value after the loop",
+                     "E5 evaluates the plugin's string-building code as CPython would"],
     "assumptions": [],
-    "not_decided": ["C# type mapping, nullability, NullValueHandling and constructor assignment (string-building logic whose "
-                    "result is only known by running the plugin)"],
+    "not_decided": ["the C# type-name mapping itself (get_type_name is stubbed in the folds)",
+                    "the emitted .cs files for evolved metamodels (needs running the plugin)"],
 }
 
 
